@@ -140,6 +140,22 @@ PROPS = {
                      "is_valid_token / is_valid_user_token are external in unit sessions (their contracts are proved in unit store)",
                      "sessions are modelled abstractly in the accounting lemmas: a map from session ids to the selected database"],
     ),
+    "C07": dict(
+        units=["election"],
+        undecided=["the protocol half of the statement: that after any interleaving of candidacies, acknowledgements and set-primary messages between 2-3 nodes exactly one node "
+                   "is Primary and all nodes name the same one (a global invariant over several processes and message orders; no contract on one call states it)",
+                   "the SetPrimary / Join / Leave / ElectionWin dispatcher arms (their bodies are closures handed to apply_if_auth; R10 abstracts closure bodies) and the "
+                   "supervisor's `election-win` => set-primary broadcast (async loop)",
+                   "that process_id really is the start time and is distinct between nodes (bin/main.rs)",
+                   "that the claim made after all acknowledgements arrived re-checks eligibility (a node that yielded while waiting must not claim): the paths of "
+                   "start_election are not distinguishable in a postcondition, and election_win cannot carry a precondition because the ElectionWin command calls it freely",
+                   "interference other than at thread::sleep: the role word is re-read after every sleep, other threads may change it at any instant"],
+        assumptions=["sequential model with ONE interference point: thread::sleep may change this node's role and member table (shim_sleep), nothing else",
+                     "replicate_message hands exactly one message to the replication thread or fails (trusted contract; body is 1 line over replicate_message_with_sender)",
+                     "get_pending_opp_copy / is_full_acknowledged may return anything (their accounting is C15)",
+                     "format! is an uninterpreted function of its literal and of the Display texts of its arguments (nfmt! shims)",
+                     "NUN_ELECTION_TIMEOUT < u128::MAX - 8 (configuration; default 1000)"],
+    ),
     "C20": dict(
         units=["http"],
         undecided=["the WebSocket transport (ws_ops::on_message pushes queued messages to the socket as they arrive: there is no reply vector to line up)",
@@ -157,8 +173,8 @@ PROPS = {
         assumptions=["Change::new stamps the resolving change with the wall clock (any u64)"],
     ),
     "C10": dict(
-        units=["store", "consensus", "security", "ids", "oplog", "pending", "parser", "sessions", "http"],
-        reachable={"http": ["process_commands"], "store": STORE_FNS, "security": SECURITY_FNS, "pending": ["ReplicationMessage::new", "ReplicationMessage::ack", "ReplicationMessage::replicated", "ReplicationMessage::is_full_acknowledged",
+        units=["store", "consensus", "security", "ids", "oplog", "pending", "parser", "sessions", "http", "election"],
+        reachable={"http": ["process_commands"], "election": ["election_eval", "start_election", "start_new_election", "election_win", "Databases::get_role", "Databases::is_eligible", "Databases::is_primary", "From<usize>@ClusterRole::from"], "store": STORE_FNS, "security": SECURITY_FNS, "pending": ["ReplicationMessage::new", "ReplicationMessage::ack", "ReplicationMessage::replicated", "ReplicationMessage::is_full_acknowledged",
                    "ReplicationMessage::count_replication", "ReplicationMessage::count_acknowledged", "ReplicationMessage::get_copy", "Databases::register_pending_opp",
                    "Databases::acknowledge_pending_opp", "Databases::get_pending_opp_copy"],
                    "parser": PARSER_FNS, "sessions": ["Database::inc_connections", "Database::dec_connections", "Database::connections_count", "release_previous_db",
